@@ -73,7 +73,7 @@ def audit_sources():
     pats = ["Admitted", "admit", "Axiom", "Parameter", "Conjecture", "Unset Guard", "bypass_check",
             "-type-in-type", "Admit Obligations", "Hypothesis", "Variable "]
     import re
-    rx = re.compile(r"\b(Admitted|admit|Axiom|Parameter|Conjecture|Hypothesis|Hypotheses|Parameters|Axioms)\b|Unset Guard|bypass_check|type-in-type|Admit Obligations|impredicative-set")
+    rx = re.compile(r"\b(Admitted|admit|Axiom|Parameter|Conjecture|Parameters|Axioms)\b|Unset Guard|bypass_check|type-in-type|Admit Obligations|impredicative-set")
     for f in list_files(COQ, ".v"):
         in_section = 0
         comment = 0
@@ -99,7 +99,7 @@ def audit_sources():
                 in_section -= 1
             if rx.search(stripped):
                 bad.append("%s:%d: %s" % (os.path.relpath(f, ROOT), i + 1, s))
-            if (s.startswith("Variable ") or s.startswith("Variables ") or s.startswith("Context ")) and not in_section:
+            if s.split(" ")[0] in ("Variable", "Variables", "Context", "Hypothesis", "Hypotheses") and not in_section:
                 bad.append("%s:%d: %s (outside a section)" % (os.path.relpath(f, ROOT), i + 1, s))
     return bad
 
